@@ -85,6 +85,7 @@ def run(ck):
     ck.floor('C11.R4', 'addition operators', nadd, 8)
 
     r5_unchecked(ck, w)
+    r7_uncompressed_form(ck, w)
     from . import c10
     c10.eval_nesting(ck, w, 'C11', 'C11.N1')
     from ..engines import ziplint
@@ -128,3 +129,24 @@ def r5_unchecked(ck, w, rule='C11.R5', crates=None, floor=30):
             ck.record(rule, f'{x}|calls:{short(c)}', x in ref.get(c, []), 'tabled caller',
                       f'{x} calls the unchecked {c} and is not in the who-may-call table: the value it decodes skips the checks of the checked decoder')
     ck.floor(rule, 'unchecked call pairs', n, floor)
+
+
+def r7_uncompressed_form(ck, w, rule='C11.R7'):
+    """uncompressed decoders refuse inputs in compressed form"""
+    from ..core import peel
+    ck.rule(rule, 'blst_p1_deserialize / blst_p2_deserialize dispatch on the compression flag (0x80) of the first byte: with the flag set they DECOMPRESS the first '
+                  'half of the input and ignore the second half.  Every function that hands an uncompressed-size buffer to them must test that flag first, '
+                  'otherwise the checked RawBytes format accepts a compressed point (by-passing the subgroup check of the compressed decoder) followed by 48/96 '
+                  'ignored bytes: the decoded key no longer re-serialises to its input')
+    n = 0
+    for f in w.all_fns(['curves']):
+        if '::tests' in f['_nid'] or 'bls12_381/g' not in f['file']:
+            continue
+        if not any((callee(m) or '').endswith(('blst_p1_deserialize', 'blst_p2_deserialize')) for m in hirq.calls(f['body'])):
+            continue
+        n += 1
+        flag = any(x.get('k') == 'bin' and x.get('op') == '&' and (peel(x['b']).get('v') in ('i:128',) or peel(x['a']).get('v') in ('i:128',)) for x in walk(f['body']))
+        ck.record(rule, f'{f["_nid"]}:tests-compression-flag', flag, 'tests the compression flag before deserialising',
+                  f'{f["_nid"]} hands the buffer to blst_p*_deserialize without testing the compression flag: a compressed encoding (plus ignored bytes) is accepted '
+                  f'by the uncompressed / raw decoders', hirq.fn_loc(f))
+    ck.floor(rule, 'uncompressed decoders', n, 2)
